@@ -85,9 +85,8 @@ checks = {
    design="5/C17"),
 }
 not_applicable = {
- "C18": "data-race freedom quantifies over goroutine schedules; deciding it with this technique needs a schedule-aware encoder (memory-access events with thread identity, lock sets, fork/join edges and an order-variable query per conflicting pair) on top of the SSA executor. The engine interprets goroutines sequentially (errgroup closures in spawn or reverse order, go statements not scheduled); the thread layer was not built, and the Go race detector is a different technique (DESIGN.md section 7)",
 }
-pending = ["C18"]
+pending = []
 m = {
  "version": 1,
  "setup_cmd": "cd /verif/gosym && GOFLAGS=-mod=mod GOPROXY=off GOSUMDB=off GOTOOLCHAIN=local go build -o /verif/bin/gosym .",
@@ -108,6 +107,11 @@ checks["C15"] = dict(
    note="ASCII assumption for symbolic configuration bytes (Safe accepts non-ASCII letters/digits: outside the claim). One appended byte per run; skeleton configuration of 2 integrations. pgx-quoted COPY identifiers count as parameters.",
    technique="go/ssa symbolic execution -> SMT (z3), term-dependency (non-interference) check at the SQL sinks; native replay",
    design="5/C15")
+checks["C18"] = dict(
+   text="Reduced form, solver-decided per recorded path: the real Task.load/insert goroutines inside a Converge step, two tasks fetching one cached range through the real caching client with any two of five data plans and consuming the shared blocks, and the head cache used by two tasks and the poller, are executed symbolically with every memory access, lock, fork, join logged per thread; for each pair of conflicting accesses z3 decides over integer order variables whether some schedule consistent with program order, fork/join, lock mutual exclusion and read consistency leaves them unordered. Every reported race is replayed natively under go test -race.",
+   note="Predictive analysis of the recorded paths (control flow fixed by read consistency; conservative: never invents a race, may miss races on other paths). Goroutines are sequentialised by the engine; byte buffers are one location each. 8 known findings (shared cached blocks mutated in place; sync.Once re-assigned under a different lock) recorded; 1 fixed.",
+   technique="go/ssa symbolic execution with event logging -> SMT order-variable race query (z3, QF_IDL); native replay under the Go race detector",
+   design="5/C18")
 checks["C19"] = dict(
    text="Bounded symbolic model checking of the real web.Handler.Authn, Login, isLoopback and web.New (password generation): both switches, loopback oracle, malformed address, form failure as solver Booleans, passwords as symbolic strings; z3 decides served <=> disabled or (loopback and not enforced) or own session, redirect to /login otherwise, session issued only for POST with the exact password. The route table of cmd/shovel main is read structurally from SSA.",
    note="session/age cryptography, net.ParseIP, http plumbing are cut (engine redirects; identical textual cuts natively). Cookie states and methods case-split. The route check is structural, not a solver query.",
